@@ -9,7 +9,7 @@ N=$$
 EV=/tmp/ev/$N
 mkdir -p $EV
 git -C /repo worktree add -q --detach $EV/repo HEAD
-rsync -a --exclude .git --exclude work --exclude replays /verif/ $EV/verif/
+rsync -a --exclude .git --exclude work --exclude replays /verif/ $EV/verif/ || [ $? = 24 ]   # 24 = files vanished during a concurrent build: harmless, lake rebuilds them
 cd $EV/verif
 sed -i "s#/repo#$EV/repo#g" harness/Cargo.toml harness/src/*.rs tools/translate.py tools/checklib.py 2>/dev/null || true
 cp $EV/repo/Cargo.lock harness/Cargo.lock
